@@ -580,17 +580,30 @@ func (c *Ctx) Bin(op Op, a, b *Term) *Term {
 			return a
 		}
 	}
+	if c.AbstractMulDiv && w >= c.AbstractMinW && (op == OpBvMul || op == OpBvUDiv || op == OpBvURem) {
+		// operations with a constant operand stay interpreted; operand order is
+		// kept (an uninterpreted function is not commutative)
+		if !(a.IsConst() || b.IsConst()) {
+			name := fmt.Sprintf("uf_%s_%d", opNames[op], w)
+			u := c.UF(name, BV(w), a, b)
+			// Facts every model must share with the real operation (they keep
+			// the abstraction an over-approximation, so unsat stays sound):
+			zero, one := c.BVConst(0, w), c.BVConst(1, w)
+			switch op {
+			case OpBvMul:
+				az, bz := c.Eq(a, zero), c.Eq(b, zero)
+				return c.Ite(c.Or(az, bz), zero, c.Ite(c.Eq(a, one), b, c.Ite(c.Eq(b, one), a, u)))
+			case OpBvUDiv:
+				return c.Ite(c.Eq(b, zero), c.BVBig(mask(w), w), c.Ite(c.Eq(b, one), a, c.Ite(c.Eq(a, zero), zero, u)))
+			default: // OpBvURem
+				return c.Ite(c.Eq(b, zero), a, c.Ite(c.Eq(b, one), zero, c.Ite(c.Eq(a, zero), zero, u)))
+			}
+		}
+	}
 	switch op {
 	case OpBvAnd, OpBvOr, OpBvXor, OpBvAdd, OpBvMul:
 		if a.ID > b.ID {
 			a, b = b, a
-		}
-	}
-	if c.AbstractMulDiv && w >= c.AbstractMinW && (op == OpBvMul || op == OpBvUDiv || op == OpBvURem) {
-		// operations with a constant operand stay interpreted
-		if !(a.IsConst() || b.IsConst()) {
-			name := fmt.Sprintf("uf_%s_%d", opNames[op], w)
-			return c.UF(name, BV(w), a, b)
 		}
 	}
 	return c.mk(&Term{Op: op, S: a.S, Args: []*Term{a, b}})
